@@ -5,15 +5,19 @@ T = "Tinode.Props.C14."
 PROP = dict(
     id="C14",
     level_text="PARTIAL (sequential bookkeeping). Kernel-checked Lean theorems: detaching removes the topic from the session's table; an accepted {leave} is answered and removes the session from the topic's table and the topic from the session's table; a terminated topic is no longer loaded; a soft-deleted or missing topic cannot be joined (404). The monitor checks after every request of every history that a session lists a topic iff the topic lists the session, that subscribe/leave/delete requests are answered, that a deleted topic has no attached sessions and refuses later subscriptions. The deletion of an account ({del what=user}, Props/C14u.lean and Model/TopicUser.lean: EvictUser, the hub's stopTopicsForUser, the notices, UserDelete hard and soft) is part of the histories: the theorems say who may delete whom, what the store holds afterwards, which topics the hub stops, that a group topic forgets a subscriber whose account is gone and that every session of the account is logged out once the deletion is acknowledged; the monitor checks after every acknowledged deletion that the account's sessions are attached to nothing, that no loaded topic counts the account online or keeps a session for it, that its own topics are shut down and deleted.",
-    level_note="NOT covered: every clause about interleavings, slow-consumer eviction, request bookkeeping that could block, and lock/atomic discipline - these are properties of goroutine schedules which a sequential executable model cannot exhibit; the harness pumps the real handlers one at a time. Known findings: a root session's on-behalf-of {leave} is unanswered; {sub}/{set} are unanswered when the ownership-transfer or grant write fails.",
+    level_note="Interleavings: the harness can hold a real request in the real queue it was put in (hub.join, Topic.reg, Topic.unreg, Topic.clientMsg) while the topic's owner deletes the topic, its idle timer fires or the requester's connection closes (Session.cleanUp runs in its own goroutine), and then lets the hub and the topic take their queues one handler at a time in an order drawn at random (`hold`, `hubstep`, `tstep`, `settle`; Model/TopicCross.lean transcribes the same steps, Props/C14x.lean proves that a terminating topic answers what is queued and that the hub refuses a {sub} for an inactive topic, releasing the session's slot). The monitor checks at quiescence that no session is left with a request in flight, that every held request was answered, and the attachment tables. NOT covered: schedules inside one handler, slow-consumer eviction, lock/atomic discipline (data races), crossings on me/fnd/p2p/channel topics and with account deletion. Known findings: a root session's on-behalf-of {leave} is unanswered; {sub}/{set} are unanswered when the ownership-transfer or grant write fails.",
     technique='Lean 4 proof (attachment-table lemmas over the transcribed leave/terminate/join paths, witness by decide) + differential correspondence of the world model + history monitor',
-    modules=["TinodeVerif.Props.C14", "TinodeVerif.Props.C14u"],
+    modules=["TinodeVerif.Props.C14", "TinodeVerif.Props.C14u", "TinodeVerif.Props.C14x"],
     theorems=[T + n for n in ['detach_not_attached', 'leave_detaches_both', 'terminate_unloads', 'deleted_topic_refused', 'root_leave_on_behalf_unanswered',
                               # the deletion of an account (Props/C14u.lean)
                               'only_root_deletes_others', 'refused_deletion_no_effect', 'deletes_self', 'root_deletes_named',
                               'hard_delete_leaves_nothing', 'soft_delete_marks_everything', 'stops_own_and_personal',
                               'member_topic_not_stopped', 'stopped_topic_lets_go', 'gone_member_iff', 'forgotten_by_group',
-                              'forgotten_by_channel', 'deleted_account_logged_out']],
+                              'forgotten_by_channel', 'deleted_account_logged_out',
+                              # crossings (Props/C14x.lean; the split of the requests is proved next to the model)
+                              'handleHeld_exiting', 'drain_answers', 'exit_answers_queued', 'setInflight_inflight', 'hub_refuses_inactive',
+                              'hub_hands_over', 'holdSub_takes_slot']] +
+             ["Tinode.World.opLeave_split", "Tinode.World.opPub_split", "Tinode.World.opSub_split"],
     streams=[world.world_stream("C14")],
     seeds=dict(quick=1, thorough=4),
     rule="random histories of 30-120 requests per case (420 cases quick, 600 thorough per seed, every third a clause scenario with random parameters) over 4 users, 7 sessions (two per user, "
